@@ -141,6 +141,22 @@ fn infer_call_target_type(
 }
 
 fn has_non_callable_member(db: &DbIndex, typ: &LuaType) -> bool {
+    has_non_callable_member_inner(db, typ, &mut Vec::new())
+}
+
+/// `visiting` holds the types currently being expanded, so that a self-referential
+/// alias (`---@alias A A|A?`) is not expanded forever.
+fn has_non_callable_member_inner(db: &DbIndex, typ: &LuaType, visiting: &mut Vec<LuaType>) -> bool {
+    if visiting.contains(typ) {
+        return false;
+    }
+    visiting.push(typ.clone());
+    let result = has_non_callable_member_step(db, typ, visiting);
+    visiting.pop();
+    result
+}
+
+fn has_non_callable_member_step(db: &DbIndex, typ: &LuaType, visiting: &mut Vec<LuaType>) -> bool {
     let typ = get_real_type(db, typ).unwrap_or(typ);
     if typ.is_function() || typ.is_call() {
         return false;
@@ -152,22 +168,22 @@ fn has_non_callable_member(db: &DbIndex, typ: &LuaType) -> bool {
         }
         LuaType::TplRef(tpl) => tpl
             .get_constraint()
-            .is_some_and(|constraint| has_non_callable_member(db, constraint)),
+            .is_some_and(|constraint| has_non_callable_member_inner(db, constraint, visiting)),
         LuaType::StrTplRef(str_tpl) => str_tpl
             .get_constraint()
-            .is_some_and(|constraint| has_non_callable_member(db, constraint)),
+            .is_some_and(|constraint| has_non_callable_member_inner(db, constraint, visiting)),
         LuaType::Union(union) => union
             .into_vec()
             .iter()
-            .any(|t| has_non_callable_member(db, t)),
+            .any(|t| has_non_callable_member_inner(db, t, visiting)),
         LuaType::Intersection(intersection) => intersection
             .get_types()
             .iter()
-            .all(|t| has_non_callable_member(db, t)),
+            .all(|t| has_non_callable_member_inner(db, t, visiting)),
         LuaType::MultiLineUnion(union) => union
             .get_unions()
             .iter()
-            .any(|(t, _)| has_non_callable_member(db, t)),
+            .any(|(t, _)| has_non_callable_member_inner(db, t, visiting)),
         _ => true,
     }
 }
